@@ -656,7 +656,13 @@ class Lib:
 
     def np_full(self, interp, shape, fill_value, dtype=None, **kw):
         """np.full(shape, v): every element is v (cast to dtype if given)"""
-        z = self.np_zeros(interp, shape, dtype if dtype is not None else ("int" if (isinstance(norm(fill_value), int) or (isinstance(norm(fill_value), SV) and not norm(fill_value).is_real)) and not isinstance(norm(fill_value), bool) else None))
+        v = norm(fill_value)
+        if isinstance(v, bool) or (isinstance(v, SV) and getattr(v, "is_bool", False)):
+            if dtype is not None:
+                raise EngineError("np.full with a boolean fill value and a dtype")
+            z = self.np_zeros(interp, shape, "bool")
+            return A.new_arr(tuple(z.shape), lambda idx: v, "bool")
+        z = self.np_zeros(interp, shape, dtype if dtype is not None else ("int" if (isinstance(v, int) or (isinstance(v, SV) and not v.is_real)) else None))
         return A.binop("+", z, fill_value)
 
     def np_full_like(self, interp, a, fill_value, dtype=None, **kw):
